@@ -6,10 +6,22 @@ package dialer
 
 import (
 	"context"
+	"encoding/json"
+	"errors"
 	"fmt"
+	"io"
+	"os"
+	"path/filepath"
 	"sort"
 	"strings"
+	"sync"
+	"testing"
 	"time"
+
+	"github.com/daeuniverse/dae/common/consts"
+	D "github.com/daeuniverse/outbound/dialer"
+	"github.com/daeuniverse/outbound/netproxy"
+	"github.com/sirupsen/logrus"
 )
 
 func VNewCheckOption(nt *NetworkType, f func(ctx context.Context, typ *NetworkType) (bool, error)) *CheckOption {
@@ -110,3 +122,78 @@ func VSetRegistered(a *AliveDialerSet, d *Dialer) bool {
 }
 
 func VReloadInherited(d *Dialer) bool { return d.reloadInheritedHealth.Load() }
+
+// ---- concurrency probe (fix 13e43e7): two racing reports on one node, one set; at quiescence the set
+// must agree with the node and the last value handed to the group callback with the set.
+// On the fixed tree 0 disagreements is a fact (Props.concurrent_reports_agree_at_quiescence is the
+// argument); on the old protocol ~1 round in 1000 disagrees, so this is a probabilistic detector.
+
+type c16RaceDialer struct{}
+
+func (c16RaceDialer) DialContext(context.Context, string, string) (netproxy.Conn, error) {
+	return nil, errors.New("not implemented")
+}
+
+func TestVerifC16Race(t *testing.T) {
+	log := logrus.New()
+	log.SetOutput(io.Discard)
+	log.SetLevel(logrus.ErrorLevel)
+	opt := &GlobalOption{Log: log, CheckInterval: 30 * time.Second}
+	rounds := 20000
+	if VThorough() {
+		rounds = 100000
+	}
+	rounds = VEnvInt("VERIF_C16_RACE_ROUNDS", rounds)
+	type res struct {
+		Rounds, NodeVsSet, SetVsCallback, FirstRound int
+		Detail                                       string
+	}
+	out := map[string]*res{}
+	tcp4 := &NetworkType{L4Proto: consts.L4ProtoStr_TCP, IpVersion: consts.IpVersionStr_4}
+	udp6 := &NetworkType{L4Proto: consts.L4ProtoStr_UDP, IpVersion: consts.IpVersionStr_6, UdpHealthDomain: UdpHealthDomainData}
+	variants := []struct {
+		name string
+		nt   *NetworkType
+		a, b func(d *Dialer, nt *NetworkType)
+	}{
+		{"forced_vs_traffic_revival", tcp4,
+			func(d *Dialer, nt *NetworkType) { d.ReportUnavailableForced(nt, nil) },
+			func(d *Dialer, nt *NetworkType) { d.informDialerGroupUpdate(d.markAvailableTraffic(nt)) }},
+		{"forced_vs_probe_success", udp6,
+			func(d *Dialer, nt *NetworkType) { d.ReportUnavailableForced(nt, nil) },
+			func(d *Dialer, nt *NetworkType) {
+				_, _ = d.Check(&CheckOption{networkType: nt, CheckFunc: func(context.Context, *NetworkType) (bool, error) { return true, nil }})
+			}},
+	}
+	for _, v := range variants {
+		r := &res{Rounds: rounds / len(variants), FirstRound: -1}
+		out[v.name] = r
+		for i := 0; i < r.Rounds; i++ {
+			var bitMu sync.Mutex
+			bit := true
+			d := NewDialer(c16RaceDialer{}, opt, InstanceOption{DisableCheck: true}, &Property{Property: D.Property{Name: "n"}})
+			set := NewAliveDialerSet(log, "g", v.nt, 0, consts.DialerSelectionPolicy_MinLastLatency, []*Dialer{d}, []*Annotation{{}},
+				func(b bool) { bitMu.Lock(); bit = b; bitMu.Unlock() }, true)
+			d.RegisterAliveDialerSet(set)
+			var wg sync.WaitGroup
+			wg.Add(2)
+			go func() { defer wg.Done(); v.a(d, v.nt) }()
+			go func() { defer wg.Done(); v.b(d, v.nt) }()
+			wg.Wait()
+			alive, in := d.MustGetAlive(v.nt), set.Len() == 1
+			if alive != in {
+				r.NodeVsSet++
+				if r.FirstRound < 0 {
+					r.FirstRound = i
+					r.Detail = fmt.Sprintf("node alive=%v, set lists it=%v", alive, in)
+				}
+			}
+			if bit != in {
+				r.SetVsCallback++
+			}
+			_ = d.Close()
+		}
+	}
+	b, _ := json.MarshalIndent(out, "", " ")
+	_ = os.WriteFile(filepath.Join(VOutDir(), "c16r.json"), b, 0o644)
+}
